@@ -17,6 +17,8 @@ ops (Float carrier):
   piecewise x fixed orig resc        -> out
   loop      t y m ep ec fixed k iters -> out
   constrain eps iters fixed times edges(p c p c …) -> out   (the committed `constrainAges` model)
+  secondpass table nodespans visits nodes -> per node: ntips k span …   (SpansBySamples.second_pass)
+  mixkeyed means vars weights -> mean var   (mixture over the entries of a span table)
   damp x y s | rescale x s | prior (state) free maxshape reltol maxitt | moments ages post
   ep_pre (state) ep ec lik ages minstep tiny ei -> case | projection arguments
   ep_post (state) … args vals maxshape -> post | edge factor | scale | node factors
@@ -80,6 +82,26 @@ def nanP : Float × Float := (0.0 / 0.0, 0.0 / 0.0)
 def stateOut (s : EPState Float) (ei : Nat) : String :=
   let f := getF s.edgeFac ei
   secs [hexs (unpairs s.post), hexs [f.1.1, f.1.2, f.2.1, f.2.2], hexs s.scale, hexs (unpairs s.nodeFac)]
+
+/-- `u ntips k v …` → span table -/
+def parseTable : List String → Option (List (Nat × List ((Nat × Nat) × Float)))
+  | [] => some []
+  | u :: n :: k :: v :: rest => do
+    let u ← u.toNat?
+    let n ← n.toNat?
+    let k ← k.toNat?
+    let v ← hexToFloat v
+    let t ← parseTable rest
+    pure (setSpans t u (((n, k), v) :: spansOf t u))
+  | _ => none
+
+def parseVisits : List String → Option (List (Visit Float))
+  | [] => some []
+  | a :: b :: sp :: t :: d :: rest => do
+    let v : Visit Float := { node := (← a.toNat?), anc := (← b.toNat?), treeSpan := (← hexToFloat sp),
+                             total := (← t.toNat?), desc := (← d.toNat?) }
+    pure (v :: (← parseVisits rest))
+  | _ => none
 
 def runOp (op : String) (blk : List (List String)) : Option String := do
   match op with
@@ -248,6 +270,24 @@ def runOp (op : String) (blk : List (List String)) : Option String := do
     let r := edgePost P (← f1 blk "maxshape") ei
       (edgePre (ep.zip ec) lik fa (← f1 blk "minstep") (← f1 blk "tiny") st ei)
     pure (stateOut r ei)
+  | "secondpass" =>
+    -- table entries are given newest-first per node so that consing restores the insertion order
+    let st ← parseTable ((field blk "table").getD [])
+    let ns ← fl blk "nodespans"
+    let visits ← parseVisits ((field blk "visits").getD [])
+    if visits.any (fun v => v.anc ≥ ns.length ∨ !(ns.getD v.anc 0 > 0)) then none
+    let nodes ← nl blk "nodes"
+    let r := secondPass 2.0 ns st visits
+    pure (secs (nodes.map (fun u =>
+      " ".intercalate ((spansOf r u).map (fun kv => s!"{kv.1.1} {kv.1.2} {floatToHex kv.2}")))))
+  | "mixkeyed" =>
+    let ms ← fl blk "means"
+    let vs ← fl blk "vars"
+    let ws ← fl blk "weights"
+    if ms.length ≠ ws.length ∨ vs.length ≠ ws.length ∨ ws.isEmpty then none
+    let entries := (List.range ws.length).map (fun i => ((i, 0), ws.getD i 0))
+    let mv := mixtureKeyed (fun k => ms.getD k.1 0) (fun k => vs.getD k.1 0) entries
+    pure (hexs [mv.1, mv.2])
   | _ => none
 
 def runCase (blk : List (List String)) : Option String := do
